@@ -159,7 +159,12 @@ def generate(rng, tier: str, index: int) -> dict:
         afi = rng.choice([1, 1, 2])
         vpn = rng.chance(0.25)
         wire_rules.append({'rule': gen_rule(rng, afi, vpn, no_names=True), 'widths': rng.randint(1, 1 << 30) if rng.chance(0.4) else 0, 'malform': rng.choice(MALFORMATIONS) if rng.chance(0.35) else None, 'seed': rng.randint(1, 1 << 30)})
-    return {'micro_seed': rng.randint(1, 1 << 48), 'knobs': knobs(rng), 'asn4': rng.chance(0.7), 'ibgp': rng.chance(0.5), 'text_rules': text_rules, 'wire_rules': wire_rules, 'gap': rng.choice([0.02, 0.1])}
+    ms = rng.chance(0.1)
+    if ms:
+        # multi-session: the rules all come from the configuration file (exabgp copies the neighbor, routes included, once per family)
+        text_rules = [dict(tr, via='config') for tr in text_rules]
+        wire_rules = []
+    return {'micro_seed': rng.randint(1, 1 << 48), 'knobs': knobs(rng), 'asn4': rng.chance(0.7), 'ibgp': rng.chance(0.5), 'text_rules': text_rules, 'wire_rules': wire_rules, 'gap': rng.choice([0.02, 0.1]), 'multisession': ms}
 
 
 # --------------------------------------------------------------------------- text rendering
@@ -437,6 +442,19 @@ def execute(plan: dict) -> dict:
         'caps': {'asn4': plan['asn4']}, 'api': {'processes': ['h1'], 'receive': ['parsed', 'update']}, 'extra': extra,
     }  # fmt: skip
     sp = Speaker(w, 'p0', '10.0.0.2', peer_as, '10.0.0.2', LOCAL, hold=180, caps=speaker_caps({'asn': peer_as, 'families': fams, 'asn4': plan['asn4']}))
+    if plan.get('multisession') and config_rules:
+        # multi-session BGP: exabgp opens one session per family (its neighbor is copied per family when the file is parsed);
+        # the peer answers each OPEN with the multisession capability and the one family of that session
+        conf['caps']['multi-session'] = True
+        sp.auto_open = False
+
+        def answer(sess) -> None:
+            mine = [c for c in sp.caps if c[0] != 1]
+            mp = [R.cap_mp(a, s_) for a, s_ in (sess.open_rx or {}).get('families', [])]
+            sp.open_bytes = lambda s_, mp=mp, mine=mine: R.build_open(sp.asn, sp.hold, sp.router_id, mp + mine + [(68, bytes([0, 1]))])
+            sp.send_open(sess)
+
+        sp.on_open.append(answer)
     w.boot(config_text([{'name': 'h1'}], [conf]))
     h = w.procs.helper('h1')
     probes: dict = {'text_rules': len(plan['text_rules']), 'wire_rules': len(plan['wire_rules']), 'text_judged': 0, 'wire_judged': 0, 'long_nlri': 0}
